@@ -261,6 +261,10 @@ func init() {
 		}
 		var i int
 		fmt.Sscanf(k.V.ExactString(), "%d", &i)
+		if e.callSite > 0 {
+			// a callee's contract applied at a call site: its loads are its own
+			return Sc{e.c.uf("callee$loaded", e.c.intSortDefault(), IntLit(int64(e.callSite)), IntLit(int64(i)))}, types.Typ[types.Uint64]
+		}
 		if i < 1 || i > len(e.c.atomicLoads) {
 			// fewer loads happened on this path: the clause talks about a value that does not
 			// exist; make that visible as a failed obligation instead of vacuous truth
@@ -269,6 +273,9 @@ func init() {
 		return Sc{e.c.atomicLoads[i-1]}, types.Typ[types.Uint64]
 	}
 	specBuiltins["nloads"] = func(e *SpecEnv, n *ast.CallExpr) (SV, types.Type) {
+		if e.callSite > 0 {
+			return Sc{e.c.uf("callee$nloads", SInt, IntLit(int64(e.callSite)))}, tMathInt
+		}
 		return Sc{IntLit(int64(len(e.c.atomicLoads)))}, tMathInt
 	}
 }
